@@ -5,9 +5,8 @@ import SparseSpace.Properties.C17
 #print axioms SparseSpace.C17.matrix_reuse_transparent
 #print axioms SparseSpace.C17.matrices_equal_for_every_history
 #print axioms SparseSpace.C17.copy_rule_sound
-#print axioms SparseSpace.C17.recompute_eq_sample_mean_partial
-#print axioms SparseSpace.C17.recompute_counterexample
-#print axioms SparseSpace.C17.reuse_rhs_counterexample
+#print axioms SparseSpace.C17.recompute_eq_sample_mean
+#print axioms SparseSpace.C17.reuse_rhs_regression_witness
 #print axioms SparseSpace.C17.rhs_paths_agree_dimension_wise
 #print axioms SparseSpace.C17.rhs_paths_agree_uniform
 #print axioms SparseSpace.C17.interpolation_paths_agree
